@@ -74,7 +74,83 @@ func vC05Accept(p *Plugin, ctx context.Context, rep, info []byte) int {
 	return code
 }
 
-// part report: the agreed outcome goes through Reports; whatever is emitted goes to ShouldAcceptAttestedReport
+// one round of the report parts: an agreed outcome goes through Reports; whatever is emitted goes to
+// ShouldAcceptAttestedReport. plug gives the plugin to use (a fresh one, or the long-lived one of a history)
+func vC05ReportRound(ctx context.Context, t *testing.T, r *vRand, codec cciptypes.CommitPluginCodec, fixedRmn *bool, plug func(rmn bool) *Plugin) (string, string, string, bool, map[string]any) {
+	ty := vPick(r, []int64{2, 2, 2, 3, 0, 1, 4})
+	f := uint64(r.Intn(4))
+	nr := r.Intn(4)
+	ns := vPick(r, []int{0, int(f), int(f) + 1, int(f) + 2, r.Intn(4)})
+	if ns < 0 {
+		ns = 0
+	}
+	gp := r.Intn(2)
+	rmn := !r.Chance(1, 4)
+	if fixedRmn != nil {
+		rmn = *fixedRmn
+	}
+	mo := merkleroot.Outcome{OutcomeType: merkleroot.OutcomeType(ty),
+		RMNRemoteCfg: rmntypes.RemoteConfig{ContractAddress: []byte{1}, F: f, ConfigVersion: 1}}
+	for k := 0; k < nr; k++ {
+		mo.RootsToReport = append(mo.RootsToReport, vC05Root(k))
+	}
+	for k := 0; k < ns; k++ {
+		mo.RMNReportSignatures = append(mo.RMNReportSignatures, cciptypes.RMNECDSASignature{R: cciptypes.Bytes32{byte(k + 1)}, S: cciptypes.Bytes32{9}})
+	}
+	oc := Outcome{MerkleRootOutcome: mo}
+	for k := 0; k < gp; k++ {
+		oc.ChainFeeOutcome = chainfee.Outcome{GasPrices: []cciptypes.GasPriceChain{{ChainSel: 3, GasPrice: cciptypes.NewBigIntFromInt64(5)}}}
+	}
+	ocb, err := oc.Encode()
+	if err != nil {
+		t.Fatal(err)
+	}
+	p := plug(rmn)
+	out := cNone()
+	cls := "empty"
+	func() {
+		defer func() {
+			if rec := recover(); rec != nil {
+				out = cSome(cTup(cN(99), cN(99), cN(99), cN(2)))
+				cls = "PANIC"
+			}
+		}()
+		reports, err := p.Reports(ctx, 1, ocb)
+		if err != nil {
+			out = cSome(cTup(cN(99), cN(99), cN(99), cN(2)))
+			return
+		}
+		if len(reports) == 0 {
+			return
+		}
+		dec, derr := codec.Decode(ctx, reports[0].ReportWithInfo.Report)
+		var info ReportInfo
+		ierr := info.Decode(reports[0].ReportWithInfo.Info)
+		if derr != nil || ierr != nil {
+			out = cSome(cTup(cN(99), cN(99), cN(99), cN(2)))
+			return
+		}
+		acc := vC05Accept(plug(rmn), ctx, reports[0].ReportWithInfo.Report, reports[0].ReportWithInfo.Info)
+		out = cSome(cTup(cNi(len(dec.MerkleRoots)), cNi(len(dec.RMNSignatures)), cN(info.RemoteF), cNi(acc)))
+		cls = "sigs>F"
+		switch {
+		case nr == 0 && ns > 0:
+			cls = "sigs-without-roots"
+		case nr == 0:
+			cls = "prices-only"
+		case uint64(ns) == f:
+			cls = "sigs=F"
+		case uint64(ns) == f+1:
+			cls = "sigs=F+1"
+		case uint64(ns) < f:
+			cls = "sigs<F"
+		}
+	}()
+	in := cTup(cZ(ty), cNi(nr), cNi(ns), cN(f), cNi(gp), cBool(rmn))
+	return in, out, cls, nr > 0 && rmn, map[string]any{"type": ty, "roots": nr, "sigs": ns, "F": f, "gasPrices": gp, "rmn": rmn}
+}
+
+// part report: a fresh plugin per case
 func TestVerif_C05_report(t *testing.T) {
 	ctx := context.Background()
 	r := vNewRand(vSeed() + 503)
@@ -83,75 +159,30 @@ func TestVerif_C05_report(t *testing.T) {
 	defer sink.Close()
 	codec := mocks.NewCommitPluginJSONReportCodec()
 	for i := 0; i < n; i++ {
-		ty := vPick(r, []int64{2, 2, 2, 3, 0, 1, 4})
-		f := uint64(r.Intn(4))
-		nr := r.Intn(4)
-		ns := vPick(r, []int{0, int(f), int(f) + 1, int(f) + 2, r.Intn(4)})
-		if ns < 0 {
-			ns = 0
-		}
-		gp := r.Intn(2)
-		rmn := !r.Chance(1, 4)
-		mo := merkleroot.Outcome{OutcomeType: merkleroot.OutcomeType(ty),
-			RMNRemoteCfg: rmntypes.RemoteConfig{ContractAddress: []byte{1}, F: f, ConfigVersion: 1}}
-		for k := 0; k < nr; k++ {
-			mo.RootsToReport = append(mo.RootsToReport, vC05Root(k))
-		}
-		for k := 0; k < ns; k++ {
-			mo.RMNReportSignatures = append(mo.RMNReportSignatures, cciptypes.RMNECDSASignature{R: cciptypes.Bytes32{byte(k + 1)}, S: cciptypes.Bytes32{9}})
-		}
-		oc := Outcome{MerkleRootOutcome: mo}
-		for k := 0; k < gp; k++ {
-			oc.ChainFeeOutcome = chainfee.Outcome{GasPrices: []cciptypes.GasPriceChain{{ChainSel: 3, GasPrice: cciptypes.NewBigIntFromInt64(5)}}}
-		}
-		ocb, err := oc.Encode()
-		if err != nil {
-			t.Fatal(err)
-		}
+		in, out, cls, nt, show := vC05ReportRound(ctx, t, r, codec, nil, vC05Plugin)
+		sink.Emit("C05_report", cls, nt, cPair(in, out), show)
+	}
+}
+
+// part replife: ONE long-lived plugin per history (Reports and ShouldAcceptAttestedReport on the same instance, as
+// libocr calls them) over 4..12 report cycles in which F_rmn, the number of signatures, roots and prices of the agreed
+// outcome change from cycle to cycle; every cycle is judged on its own outcome (the model has no memory)
+func TestVerif_C05_replife(t *testing.T) {
+	ctx := context.Background()
+	r := vNewRand(vSeed() + 513)
+	n := vEnvInt("VERIF_N", 60)
+	sink := vOpenSink("C05_replife")
+	defer sink.Close()
+	codec := mocks.NewCommitPluginJSONReportCodec()
+	for h := 0; h < n; h++ {
+		rmn := !r.Chance(1, 5)
 		p := vC05Plugin(rmn)
-		out := cNone()
-		cls := "empty"
-		func() {
-			defer func() {
-				if rec := recover(); rec != nil {
-					out = cSome(cTup(cN(99), cN(99), cN(99), cN(2)))
-					cls = "PANIC"
-				}
-			}()
-			reports, err := p.Reports(ctx, 1, ocb)
-			if err != nil {
-				out = cSome(cTup(cN(99), cN(99), cN(99), cN(2)))
-				return
-			}
-			if len(reports) == 0 {
-				return
-			}
-			dec, derr := codec.Decode(ctx, reports[0].ReportWithInfo.Report)
-			var info ReportInfo
-			ierr := info.Decode(reports[0].ReportWithInfo.Info)
-			if derr != nil || ierr != nil {
-				out = cSome(cTup(cN(99), cN(99), cN(99), cN(2)))
-				return
-			}
-			acc := vC05Accept(vC05Plugin(rmn), ctx, reports[0].ReportWithInfo.Report, reports[0].ReportWithInfo.Info)
-			out = cSome(cTup(cNi(len(dec.MerkleRoots)), cNi(len(dec.RMNSignatures)), cN(info.RemoteF), cNi(acc)))
-			cls = "sigs>F"
-			switch {
-			case nr == 0 && ns > 0:
-				cls = "sigs-without-roots"
-			case nr == 0:
-				cls = "prices-only"
-			case uint64(ns) == f:
-				cls = "sigs=F"
-			case uint64(ns) == f+1:
-				cls = "sigs=F+1"
-			case uint64(ns) < f:
-				cls = "sigs<F"
-			}
-		}()
-		in := cTup(cZ(ty), cNi(nr), cNi(ns), cN(f), cNi(gp), cBool(rmn))
-		sink.Emit("C05_report", cls, nr > 0 && rmn, cPair(in, out),
-			map[string]any{"type": ty, "roots": nr, "sigs": ns, "F": f, "gasPrices": gp, "rmn": rmn})
+		cycles := r.Range(4, 12)
+		for c := 0; c < cycles; c++ {
+			in, out, cls, nt, show := vC05ReportRound(ctx, t, r, codec, &rmn, func(bool) *Plugin { return p })
+			show["history"], show["cycle"] = h, c
+			sink.Emit("C05_replife", cls, nt, cPair(in, out), show)
+		}
 	}
 }
 
